@@ -19,9 +19,9 @@ var realStub = map[string]interface{}{
 func specs() map[string]*propSpec {
 	m := map[string]*propSpec{}
 	m["C09"] = &propSpec{id: "C09", engine: "E1-lru-simulator", level: "exploration",
-		rule:     "seeded single-client histories of Store/Load/Delete/Len/Dump (1..2000 ops, 2..5 keys or 4c+8 keys, capacities 0..4, 5, 8, 16, swarm operation mixes) refined step by step against a reference LRU; a run is non-trivial when it had >=1 eviction and >=1 (re-store of a live key or load hit); distinct = distinct hash of (capacity, operation list, event log)",
+		rule:     "systematic corpus (every run): every operation sequence of length 1..5 over {Store,Load,Delete} x 2 keys + Len + Dump on capacities 0..2 (thorough: length <= 6, and length <= 5 over 3 keys on capacities 0..3), with the removal callback registered; plus seeded single-client histories of Store/Load/Delete/Len/Dump (1..2000 ops, 2..5 keys or 4c+8 keys, capacities 0..4, 5, 8, 16, swarm operation mixes) refined step by step against a reference LRU; a run is non-trivial when it had >=1 eviction and >=1 (re-store of a live key or load hit); distinct = distinct hash of (capacity, operation list, event log)",
 		assume:   []string{"sampling, not enumeration: a clean batch is evidence, not proof", "the reference model (e1/model.go) is the specification of an LRU as stated in C09", "Dump text is not judged under C09"},
-		quick:    budget{race: false, runs: 240000, maxWall: 25 * time.Second},
+		quick:    budget{race: false, runs: 320000, maxWall: 25 * time.Second},
 		thorough: budget{race: false, runs: 60000000, maxWall: 8 * time.Minute}}
 	m["C10"] = &propSpec{id: "C10", engine: "E1-lru-simulator", level: "exploration",
 		rule:     "seeded schedules of 2..4 clients x 2..6 ops (small: linearizability of the recorded history against the reference LRU, lock-grant order as witness, porcupine otherwise) and 4..16 clients x 50..500 ops (large: invariants), all under the race detector with the simulator's hand-offs hidden and the application's own lock/pool edges declared; a run is non-trivial when >=2 operations of different clients overlapped and >=1 entry was removed; distinct = distinct hash of (plan, event log)",
@@ -31,7 +31,7 @@ func specs() map[string]*propSpec {
 	e2assume := []string{"sampling, not enumeration", "the reference is the real code run alone in an oracle process (fresh pools, always-miss cache): a defect that is present in isolation too is invisible here by design",
 		"where a call iterates a Go map with more than one entry, error clauses are compared as a multiset (their order is unspecified)"}
 	m["C08"] = &propSpec{id: "C08", engine: "E2-call-history-simulator", level: "exploration",
-		rule:     "seeded histories of 20..860 struct-validation calls by one simulated client over more struct types than the cache holds (static multi-tag types and up to 560 reflect.StructOf types), tag names and per-call rule/function overrides drawn per call; cache configuration drawn per history (LRU 0/1/2/3/8/512, sync.Map, always-miss, the built-in default in a fresh process) with injected cache faults (store lost, load miss with removal, flush); pools pinned to always-fresh; every result compared with the oracle process; non-trivial = a cache hit happened and (an eviction, an injected cache fault, or a second tag name for a cached type); for the built-in cache (not observable): a type was validated under two tag names or more than 512 distinct types were used",
+		rule:     "seeded histories of 20..860 struct-validation calls by one simulated client over more struct types than the cache holds (static multi-tag types, same-named types from two packages, and up to 560 reflect.StructOf types), tag names and per-call rule/function overrides drawn per call; cache configuration drawn per history (LRU 0/1/2/3/8/512, sync.Map, always-miss, the built-in default in a fresh process) with injected cache faults (store lost, load miss with removal, flush); pools pinned to always-fresh in 3 of 5 histories (only the cache carries state) and recycling in the others; every result compared with the oracle process; non-trivial = a cache hit happened and (an eviction, an injected cache fault, or a second tag name for a cached type); for the built-in cache (not observable): a type was validated under two tag names or more than 512 distinct types were used",
 		assume:   e2assume,
 		quick:    budget{race: false, runs: 6400, maxWall: 40 * time.Second},
 		thorough: budget{race: false, runs: 4000000, maxWall: 10 * time.Minute}}
@@ -127,6 +127,9 @@ func runCheck(prop, tier string, seed uint64) int {
 	if m.inconclusive*100 > m.runs {
 		return trouble("%d of %d runs were inconclusive (step cap or linearizability timeout) - the check no longer decides", m.inconclusive, m.runs)
 	}
+	if m.sysTotal > 0 && uint64(m.counters["systematic_cases_run"]) < m.sysTotal && len(m.violations) == 0 {
+		return trouble("only %d of the %d systematic cases ran (wall budget too small for this machine) - the check would silently cover less than it states", m.counters["systematic_cases_run"], m.sysTotal)
+	}
 	shrinkBudget := 20 * time.Second
 	if tier == "thorough" {
 		shrinkBudget = 60 * time.Second
@@ -180,6 +183,8 @@ func runCheck(prop, tier string, seed uint64) int {
 		"distinct_interleavings_measure":     "distinct hashes of the sequence of (task, operation kind) at context switches",
 		"distinct_interleavings_lower_bound": m.interOv > 0,
 		"distinct_model_states":              len(m.states),
+		"systematic_cases_total":             m.sysTotal,
+		"systematic_cases_run":               m.counters["systematic_cases_run"],
 		"fault_kinds_fired":                  counterJSON(m.faults),
 		"probes":                             counterJSON(m.probes),
 		"counters":                           counterJSON(m.counters),
